@@ -82,7 +82,12 @@ impl DynGroup {
             affected_uuids.insert(uuid);
 
             // Apply the filter and get all the uuids that are members of this dyngroup.
-            let entries = qs.internal_search(scope_i.clone()).map_err(|e| {
+            // Only *live* entries can be members: the raw filter does not mask recycled entries.
+            let live_scope = Filter::join_parts_and(
+                filter!(f_pres(Attribute::Class)),
+                scope_i.clone(),
+            );
+            let entries = qs.internal_search(live_scope).map_err(|e| {
                 error!("internal search failure -> {:?}", e);
                 e
             })?;
@@ -352,7 +357,10 @@ impl DynGroup {
                 .iter()
                 .zip(post_entries.iter())
                 .filter_map(|(pre, post)| {
-                    let pre_t = pre.entry_match_no_index(&dg_filter_valid);
+                    // An entry that is being revived did not count as a member while it was
+                    // in the recycle bin, whatever its attributes say.
+                    let pre_t = pre.mask_recycled_ts().is_some()
+                        && pre.entry_match_no_index(&dg_filter_valid);
                     let post_t = post.entry_match_no_index(&dg_filter_valid);
 
                     trace!(?post_t, ?force_cand_updates, ?pre_t);
